@@ -29,6 +29,17 @@ def harnesses():
     for k, n in enumerate(("sec", "usec", "caplen", "wirelen")):
         out.append(H(f"c17_pkt_set_{n}", "C17", "quick" if n == "caplen" else "thorough", f"pkt::set::<4>({k})",
                      f"pkt_set_{n}", "16 header bytes + 4 captured bytes, assigned value any i64", 18))
+    # ---- Pcap object via H4: global-header properties (C16) and their setters (C17)
+    for ns, mn in ((False, "us"), (True, "ns")):
+        out.append(H(f"c16_pcap_props_{mn}", "C16", "quick" if not ns else "thorough", f"pcapobj::dec({str(ns).lower()})", "pcap_props",
+                     f"20 symbolic header bytes after the {mn} magic", 26))
+    for k, (n, meth) in enumerate((("magic", "set_magic_number"), ("major", "set_version_major"), ("minor", "set_version_minor"),
+                                   ("thiszone", "set_thiszone"), ("sigfigs", "set_sigfigs"), ("snaplen", "set_snaplen"),
+                                   ("linktype", "set_linktype"))):
+        for ns, mn in ((False, "us"), (True, "ns")):
+            tier = "quick" if (n in ("minor", "thiszone") and not ns) else "thorough"
+            out.append(H(f"c17_pcap_set_{n}_{mn}", "C17", tier, f"pcapobj::set({k}, {str(ns).lower()}, |p, v| p.{meth}(v))",
+                         f"pcap_set_{n}", f"20 symbolic header bytes after the {mn} magic, assigned value any i64, 1 symbolic compare index", 26))
     # ---- C21 (count of bytes returned / consumed; see pcapio.rs read_prefix for why not the values)
     for (b, buf, tier, to, req) in ((1, 0, "quick", 600, True), (2, 0, "quick", 600, True), (3, 0, "thorough", 900, True),
                                     (4, 0, "thorough", 1800, False), (2, 2, "thorough", 1800, False)):
